@@ -465,7 +465,7 @@ Definition set_eqb (a b : list string) : bool := (forallb (fun x => mem x b) a &
 Definition erule_eqb (a b : eng_rule) : bool :=
   (String.eqb (e_name a) (e_name b) && String.eqb (e_cat a) (e_cat b) && String.eqb (e_sub a) (e_sub b)
    && set_eqb (e_tags a) (e_tags b) && list_eqb atom_eqb (e_match a) (e_match b))%bool.
-Inductive eload := XOk (l : list eng_rule) | XErr | XSkip.
+Inductive eload := XOk (l : list eng_rule) | XErr | XSkip | XOutside.
 Definition load_ok (rules : list csv_rule) (x : eload) : bool :=
   match x, load_all rules with
   | XSkip, _ => true | _, LUnm => true
@@ -509,6 +509,12 @@ Definition check (c : case_t) : list nat :=
 Fixpoint failing (i : nat) (l : list case_t) : list (nat * list nat) :=
   match l with [] => [] | c :: r => match check c with [] => failing (S i) r | e => (i, e) :: failing (S i) r end end.
 '''
+
+
+GEN_HEADER = ('# Tally Merchant Rules\n# Migrated from merchant_categories.csv\n#\n# Format:\n#   [Rule Name]\n'
+              '#   match: <expression>\n#   category: <category>\n#   subcategory: <subcategory>\n'
+              '#   tags: tag1, tag2  # optional\n\n')
+HEADER += 'Definition HDR : string := "' + GEN_HEADER + '".\n'
 
 
 def z(n):
@@ -613,7 +619,7 @@ def coq_atoms(a):
     return '[' + '; '.join(out) + ']%Z'
 
 
-def coq_subcase(sub, txns, today, tabs_src, stats):
+def coq_subcase(sub, txns, today, tabs_src, stats, with_text=True):
     """sub: a run_pair result (whole file or one rule alone). Returns Coq term or raises Skip."""
     if 'loaded' not in sub or 'content' not in sub:
         raise Skip('no-loaded')
@@ -622,11 +628,10 @@ def coq_subcase(sub, txns, today, tabs_src, stats):
         raise Skip('long')
     if sub['load'] == 'ok':
         ers = []
-        for e in sub['engine_rules']:
-            if e['ast'] is None or isinstance(e['ast'], dict):
-                raise Skip('match-outside-fragment')      # reported separately (broken correspondence)
+        outside = any(e['ast'] is None or isinstance(e['ast'], dict) for e in sub['engine_rules'])
+        for e in ([] if outside else sub['engine_rules']):
             ers.append(f'ER {coq_str(e["name"])} {coq_str(e["c"])} {coq_str(e["s"])} [{"; ".join(coq_str(t) for t in e["tags"])}] {coq_atoms(e["ast"])}')
-        xl = f'XOk [{"; ".join(ers)}]'
+        xl = 'XOutside' if outside else f'XOk [{"; ".join(ers)}]'
     else:
         xl = 'XErr' if sub['load'].get('error') == 'MerchantParseError' else 'XSkip'
     pats = set()
@@ -677,7 +682,12 @@ def coq_subcase(sub, txns, today, tabs_src, stats):
             if isinstance(v, str):
                 raise Skip('re-crash')
             tbl.append(f'({coq_str(p)}, {coq_str(text)}, {coq_opt_bool(v)})')
-    text = f'(Some {cstr(sub["content"])})'
+    if not with_text:
+        text = 'None'
+    elif sub['content'].startswith(GEN_HEADER):
+        text = f'(Some (HDR ++ {cstr(sub["content"][len(GEN_HEADER):])}))'
+    else:
+        text = f'(Some {cstr(sub["content"])})'
     return (f'([{"; ".join(rules)}], {today}%Z, {text}, {xl}, [{"; ".join(tbl)}], [{"; ".join(txs)}])', len(txs))
 
 
@@ -708,7 +718,7 @@ def model_check(cases, results, today, stats, chunk=120):
             try:
                 if label != 'file' and sub.get('load') == 'ok' and not sub.get('engine_rules'):
                     raise Skip('alone-no-engine-rules')
-                term, ntx = coq_subcase(sub, case['txns'], today, tabs, stats)
+                term, ntx = coq_subcase(sub, case['txns'], today, tabs, stats, with_text=(label == 'file'))
             except Skip as e:
                 stats['skip:' + str(e)] = stats.get('skip:' + str(e), 0) + 1
                 continue
@@ -983,11 +993,6 @@ def main(tier):
             broken.append({'kind': 'broken-correspondence', 'obligation': 'unesc/lex_ok/line_unterminated vs CPython literal reading',
                            'detail': {'strings': lb[:10], 'n': len(lb)}})
             lit_bad = lb
-        # match expressions outside the emitted fragment = the converter changed shape
-        outside = [(ci, e['expr']) for ci, r in enumerate(results) for e in (r.get('engine_rules') or []) if e['ast'] is None]
-        if outside:
-            broken.append({'kind': 'broken-correspondence', 'obligation': 'generated match expression stays in the modelled fragment',
-                           'detail': {'csv': cases[outside[0][0]]['csv'], 'match_expr': outside[0][1], 'n': len(outside)}})
     unknown = [x for x in reported if x['status'] == 'VIOLATION']
     if broken and not unknown:
         run.violation('broken', {'kind': broken[0]['kind'], 'obligation': broken[0].get('obligation') or
